@@ -528,6 +528,144 @@ def check_hist(prop, tier, seed, replay=None):
         b.cleanup()
 
 
+# ------------------------------------------------------------------ C16 (engine omp)
+def build_omp(b):
+    vs = [Variant("omp", openmp=1, mmc=1, mzdcache=0, flavour="mon", knobs=True),
+          Variant("seq", flavour="plain", knobs=True)]
+    b.build_variants(vs)
+    return b.build_engine("omp", ["gen.c", "eng/engutil.c", "eng/omp.c"], vs, "mon", core=("heap.c", "die.c", "fs.c", "sched.c")), vs
+
+
+def shrink_schedule(exe, path, base, outdir, tag):
+    """Turn the seeded schedule of a violating program into explicit decisions and minimise them (ddmin over
+    `sched` lines).  Returns the path of the explicit program if it reproduces, else None."""
+    out = os.path.join(outdir, "explicit-%s.prog" % tag)
+    try:
+        subprocess.run([exe, "explicit", path, out], stdout=subprocess.PIPE, stderr=subprocess.STDOUT, timeout=900)
+    except subprocess.TimeoutExpired:
+        return None
+    if not os.path.exists(out):
+        return None
+    r = exec_prog(exe, out)
+    if not driver.same_violation(base, r, None):
+        return None
+    return out
+
+
+def check_C16(tier, seed, replay=None):
+    t0 = time.time()
+    rep = Report("C16")
+    b = Builder()
+    try:
+        exe, vs = build_omp(b)
+        sym = Symbolizer(exe)
+        if replay:
+            r = exec_prog(exe, replay)
+            print(r.get("raw"))
+            ok = r.get("cls", "") == "ok"
+            if not ok:
+                print("VIOLATION property=%s replay=%s" % (r.get("prop", "C16"), replay))
+            return 0 if ok else 1
+        total = 18 * (40 if tier == "quick" else 1200)
+        outdir = os.path.join(b.scratch, "out")
+        lines, crashes = fanout(exe, seed, total, tier, outdir, 100 if tier == "quick" else 1400)
+        ctl_lines, cr2 = fanout(exe, seed, 32, tier, os.path.join(b.scratch, "out_ctl"), 100, extra=["control"])
+        for cc in crashes + cr2:
+            rep.harness("omp worker %d exited with %d: %s" % (cc["worker"], cc["rc"], cc["tail"][-3:]))
+        hashes, vl, classes, per_scen, T = [], [], {}, {}, {}
+        team_hist = [0] * 16
+        for w, l in lines:
+            tag, d = kv(l)
+            if tag == "R":
+                hashes.append((int(d["idx"]), d["hash"]))
+                classes[d["class"]] = classes.get(d["class"], 0) + 1
+                per_scen[d["scen"]] = per_scen.get(d["scen"], 0) + 1
+            elif tag == "T":
+                for kk, v in d.items():
+                    if kk == "team_hist":
+                        for i, x in enumerate(v.split(",")):
+                            team_hist[i] += int(x)
+                    elif kk == "max_sections_one_thread":
+                        T[kk] = max(T.get(kk, 0), int(v))
+                    else:
+                        T[kk] = T.get(kk, 0) + int(v)
+            elif tag == "V":
+                vl.append(d)
+        ctl_flagged = ctl_runs = 0
+        for w, l in ctl_lines:
+            tag, d = kv(l)
+            if tag == "T":
+                ctl_flagged += int(d.get("races_control", 0))
+            elif tag == "R":
+                ctl_runs += 1
+            elif tag == "V":
+                rep.harness("control (critical sections off in the simulated runtime) not flagged by the access monitor: %s" % l[:200])
+        if ctl_flagged == 0:
+            rep.harness("control: no race reported with critical sections off")
+        if not hashes:
+            rep.harness("no run")
+        probes = {k[2:]: v for k, v in T.items() if k.startswith("p.")}
+        stuck = sorted(k for k, v in probes.items() if v == 0)
+        if tier == "thorough" and stuck:
+            rep.harness("reach probes stuck at zero: %s" % stuck)
+
+        def sig(v, s):
+            who = v.get("func", "-")
+            if v.get("class") == "data_race":
+                fs = sorted(set([sym.func(v.get("site", "0x0")), sym.func(v.get("site2", "0x0"))]))
+                who = "+".join(fs)
+            return "omp|%s|%s|%s" % (v.get("scen"), v.get("class"), who)
+        # try to replace seeded schedules by minimised explicit ones
+        for i, v in enumerate(vl[:12]):
+            if v.get("class") in ("parallel_result_differs_from_sequential", "data_race"):
+                base = exec_prog(exe, v["file"])
+                ex = shrink_schedule(exe, v["file"], base, outdir, str(i))
+                if ex:
+                    v["file"] = ex
+        process_violations(rep, exe, vl, None, outdir, seed, sig,
+                           keep_pred=lambda l: l.startswith("#") or l.startswith("schedcfg") or l.startswith("op ") or l.startswith("control"))
+        samples = []
+        per = (total + driver.NWORKERS - 1) // driver.NWORKERS
+        for w in (0, 3, 9):
+            p = os.path.join(outdir, "cur-%d.prog" % (w * per))
+            if os.path.exists(p):
+                samples.append(open(p).read())
+        wall = time.time() - t0
+        mine_viol = [v for v in rep.violations if v[0] == "C16"]
+        cov = dict(
+            evaluations=len(hashes), distinct_nontrivial=T.get("interleavings", 0),
+            rule="one evaluation = one forked run: sequential reference, the OpenMP build on a simulated team of n threads without preemption, and the same under one seeded schedule "
+                 "(random-walk preemption at memory accesses / function entries / heap calls / runtime calls / critical sections, or PCT-style placed preemption points); "
+                 "distinct_nontrivial = distinct interleavings = distinct hashes of the sequence (yield class, task switched to) over the switch points of a run (per worker, summed)",
+            samples=samples, outcome_classes=classes, runs_per_operation=per_scen,
+            simulated_events=T.get("events", 0), regions=T.get("regions", 0), nested_regions=T.get("nested", 0), sections_handed_out=T.get("sections", 0),
+            max_sections_run_by_one_thread=T.get("max_sections_one_thread", 0), idle_threads=T.get("idle_threads", 0), critical_sections_entered=T.get("criticals", 0),
+            context_switches=T.get("switches", 0), preemptions=T.get("preemptions", 0), team_size_histogram={str(i + 1): team_hist[i] for i in range(16)},
+            fault_kinds_fired={"preemption (involuntary switch)": T.get("preemptions", 0), "team size other than the machine default": sum(team_hist) - team_hist[3],
+                               "dynamic team size per region": probes.get("dynamic_team_size", 0), "nested region with a real team": probes.get("nested_region_with_real_team", 0)},
+            control=dict(runs=ctl_runs, conflicting_accesses_reported=ctl_flagged, what="simulated runtime with critical sections turned into no-ops: the monitor must report conflicts"),
+            reach_probes=probes, probes_stuck_at_zero=stuck,
+            runs_per_hour=int(len(hashes) / max(wall, 1e-3) * 3600), seeds_per_hour=int(len(hashes) / max(wall, 1e-3) * 3600),
+            simulated_time="logical time only: %d simulated events (one per instrumented memory access, function entry, heap call and runtime call); the library has no clock" % T.get("events", 0),
+            run_hash_digest=digest(hashes), variants=[v.describe() for v in vs], source_sha256=b.sha,
+            real_components=["the library compiled with -fopenmp by the real compiler (outlined region bodies, static schedule arithmetic)", "sequential reference build of the same tree"],
+            simulated_components=["OpenMP runtime (GOMP_parallel, GOMP_parallel_sections, GOMP_sections_next, critical sections, omp_get_*)", "threads (ucontext tasks, one runs at a time)",
+                                  "scheduler", "heap front end", "access monitor (vector clocks) on the compiler's -fsanitize=thread callbacks, no TSan runtime"])
+        write_evidence("C16", tier, seed, "exploration", cov,
+                       ["the simulated runtime is conforming but it is not libgomp: behaviour specific to libgomp's implementation is out of reach",
+                        "sequential reference = same entry point of the sequential build; for mzd_(add)mul_mp the same code on the simulated runtime disabled (sequential semantics) and the sequential mzd_(add)mul",
+                        "the monitor sees library code only (compiler-instrumented accesses plus memset/memcpy/memmove)"],
+                       wall, len(mine_viol))
+        print("C16 %s: %d runs, %d simulated events, %d regions, %d sections, %d switches, %d interleavings, classes %s, control races %d, %.1fs"
+              % (tier, len(hashes), T.get("events", 0), T.get("regions", 0), T.get("sections", 0), T.get("switches", 0), T.get("interleavings", 0), classes, ctl_flagged, wall))
+        return rep.exit_code()
+    except BuildError as e:
+        print("HARNESS-ERROR: build failed: %s" % e)
+        return 2
+    finally:
+        b.cleanup()
+
+
 def check_C10(tier, seed, replay=None):
     return check_hist("C10", tier, seed, replay)
 
@@ -536,4 +674,4 @@ def check_C11(tier, seed, replay=None):
     return check_hist("C11", tier, seed, replay)
 
 
-CHECKS = {"C20": check_C20, "C18": check_C18, "C14": check_C14, "C10": check_C10, "C11": check_C11}
+CHECKS = {"C20": check_C20, "C18": check_C18, "C14": check_C14, "C10": check_C10, "C11": check_C11, "C16": check_C16}
